@@ -14,7 +14,8 @@ missing call again, ...  No repository code is executed.
 import os
 import re
 
-from ..core import AnalysisBroken, Inliner, canon, strip, walk, norm_cond, last_member, lvalue_steps, lvalue_root
+from ..core import (AnalysisBroken, Inliner, Block, canon, strip, walk, norm_cond, last_member, lvalue_steps, lvalue_root,
+                    method_slot)
 from ..analyses import liveness
 from .. import roles
 
@@ -114,13 +115,215 @@ def stored_table(e):
 # --------------------------------------------------------------------------
 
 def _root_set(prog):
+    """entry points: roles.roots, without the functions that can only be entered through a private constant
+    dispatch table (their contexts are the functions that call through the table, see dispatch_tables)"""
     if getattr(prog, '_h15_roots', None) is None:
-        prog._h15_roots = {r.q: r for r in roles.roots(prog)}
+        only = dispatch_only(prog)
+        prog._h15_roots = {r.q: r for r in roles.roots(prog) if r.q not in only}
     return prog._h15_roots
+
+
+# --------------------------------------------------------------------------
+# private constant dispatch tables (`static const struct mode { int (*input)(..); } modes[2] = {{a}, {b}}`,
+# `static int (*const openers[])(void) = {x, y}`): an indirect call through such a table can only enter the
+# functions of its initialiser, the one selected by the index value
+# --------------------------------------------------------------------------
+
+def _func_of_init(prog, unit, v):
+    v = strip(v)
+    if isinstance(v, dict) and v.get('k') == 'addr':
+        v = strip(v['e'])
+    if isinstance(v, dict) and v.get('k') == 'var' and v.get('vk') == 'func':
+        return (prog.resolve(unit, v['name']) if unit else None) or prog.funcs.get(v['name'])
+    return None
+
+
+def dispatch_tables(prog):
+    """{global key: {'name', 'unit', 'record', 'elems': [{field | None: Func}]}} for every file-scope constant
+    with internal linkage (never written, not a poll-method table) whose initialiser holds function addresses"""
+    if getattr(prog, '_h15_dtab', None) is not None:
+        return prog._h15_dtab
+    out, alltabs = {}, {}
+    for key, g in sorted(prog.globals.items()):
+        init = g.get('init')
+        if not isinstance(init, dict) or init.get('k') != 'init' or g.get('extern_decl') or not g.get('static'):
+            continue
+        if g.get('record') == 'iv_fd_poll_method':
+            continue
+        if 'const' not in str(g.get('type', '')):
+            continue
+        if prog.global_writers(g['name']):
+            continue
+        unit = g.get('unit')
+        rows = init.get('elems') if 'elems' in init else [init]
+        elems, data, any_fn, rec = [], [], False, None
+        for r in rows:
+            row, drow = {}, {}
+            r0 = strip(r)
+            if isinstance(r0, dict) and r0.get('k') == 'init' and 'fields' in r0:
+                rec = r0.get('record') or rec
+                cells = list(r0['fields'].items())
+            else:
+                cells = [(None, r)]
+            for fld, v in cells:
+                f = _func_of_init(prog, unit, v)
+                if f is not None:
+                    row[fld] = f
+                    continue
+                c = evaluate(v, {})
+                if c != TOP and is_const(c):
+                    drow[fld] = c
+            any_fn = any_fn or bool(row)
+            elems.append(row)
+            data.append(drow)
+        t = {'key': key, 'name': g['name'], 'unit': unit, 'record': rec or g.get('record'), 'elems': elems, 'data': data}
+        alltabs[key] = t
+        if any_fn:
+            out[key] = t
+    prog._h15_dtab = out
+    prog._h15_ctab = alltabs
+    return out
+
+
+def const_tables(prog):
+    """like dispatch_tables, for every private constant with an initialiser (also pure data tables); 'data' holds
+    the integer constants of each row"""
+    dispatch_tables(prog)
+    return prog._h15_ctab
+
+
+def dispatch_only(prog):
+    """{q: [table info]} of the static functions whose address occurs in private constant dispatch tables and
+    nowhere else: they run only when a call through one of these tables selects them"""
+    if getattr(prog, '_h15_donly', None) is not None:
+        return prog._h15_donly
+    tabs = dispatch_tables(prog)
+    cand = {}
+    for t in tabs.values():
+        for row in t['elems']:
+            for f in row.values():
+                if f.static:
+                    cand.setdefault(f.q, [])
+                    if t not in cand[f.q]:
+                        cand[f.q].append(t)
+    if cand:
+        # any other use of the address (stored, passed, in another initialiser) lets it escape
+        for f in prog.all_funcs():
+            u = prog.unit_of(f)
+            for e in f.events():
+                for x in walk(e):
+                    if x.get('k') == 'var' and x.get('vk') == 'func':
+                        t = prog.resolve(u, x['name']) if u else prog.funcs.get(x['name'])
+                        if t is not None:
+                            cand.pop(t.q, None)
+        for key, g in prog.globals.items():
+            if key in tabs or not isinstance(g.get('init'), dict):
+                continue
+            for x in walk(g['init']):
+                if x.get('k') == 'var' and x.get('vk') == 'func':
+                    t = _func_of_init(prog, g.get('unit'), x)
+                    if t is not None:
+                        cand.pop(t.q, None)
+    prog._h15_donly = cand
+    return cand
+
+
+def dispatch_site_tables(prog, caller, e):
+    """dispatch tables an indirect call event of `caller` may go through: the function expression is a member of
+    the tables' record type, or mentions the table (or a local computed from it) by name"""
+    if 'fnexpr' not in e:
+        return []
+    tabs = [t for t in dispatch_tables(prog).values()]
+    if not tabs:
+        return []
+    unit = prog.unit_of(caller)
+    fe = strip(e['fnexpr'])
+    out = []
+    names = {x['name'] for x in walk(e['fnexpr']) if x.get('k') == 'var' and x.get('vk') != 'func'}
+    # locals of the caller that are computed from a table
+    more = set()
+    for ev in caller.events():
+        if ev['ev'] == 'store' and 'rhs' in ev:
+            l = strip(ev['lhs'])
+            if isinstance(l, dict) and l.get('k') == 'var' and l['name'] in names:
+                more |= {x['name'] for x in walk(ev['rhs']) if x.get('k') == 'var' and x.get('vk') in ('global', 'staticlocal')}
+        elif ev['ev'] == 'decl' and ev.get('name') in names and 'init' in ev:
+            more |= {x['name'] for x in walk(ev['init']) if x.get('k') == 'var' and x.get('vk') in ('global', 'staticlocal')}
+    for t in tabs:
+        if t['unit'] is not None and unit is not None and t['unit'] != unit:
+            continue
+        if isinstance(fe, dict) and fe.get('k') == 'member' and t['record'] and fe.get('record') == t['record'] \
+                and any(fe['field'] in row for row in t['elems']):
+            out.append(t)
+        elif t['name'] in names or t['name'] in more:
+            out.append(t)
+    return out
+
+
+def dispatch_field(e):
+    fe = strip(e['fnexpr'])
+    return fe['field'] if isinstance(fe, dict) and fe.get('k') == 'member' else None
+
+
+class DInliner(Inliner):
+    """Inliner that also enters the functions of private constant dispatch tables.  Each alternative starts with
+    an `assume` event (which element was selected); the simulator drops the paths on which the index value known
+    at that point selects another element."""
+
+    def _targets(self, caller, e, known_table=None):
+        ts = Inliner._targets(self, caller, e, known_table)
+        if ts is None and 'callee' not in e and method_slot(e) is None:
+            tabs = dispatch_site_tables(self.prog, caller, e)
+            if tabs:
+                fld = dispatch_field(e)
+                fs = []
+                for t in tabs:
+                    for row in t['elems']:
+                        f = row.get(fld)
+                        if f is not None and f not in fs:
+                            fs.append(f)
+                if fs and all(f.blocks and not self.stop(f) for f in fs):
+                    return fs
+        return ts
+
+    def inline(self, f):
+        g = Inliner.inline(self, f)
+        tabs = dispatch_tables(self.prog)
+        if not tabs:
+            return g
+        nxt = max(g.blocks) + 1
+        changed = False
+        for b in sorted(g.blocks):
+            blk = g.blocks[b]
+            if not blk.events or blk.events[-1].get('ev') != 'enter' or 'fnexpr' not in blk.events[-1]:
+                continue
+            en = blk.events[-1]
+            if method_slot(en) is not None or len(blk.succ) != len(en.get('targets', ())):
+                continue
+            caller = self.prog.funcs.get(en.get('fn')) or f
+            ts = dispatch_site_tables(self.prog, caller, en)
+            if not ts:
+                continue
+            for k, s in enumerate(list(blk.succ)):
+                ev = {'ev': 'assume', 'fnexpr': en['fnexpr'], 'target': en['targets'][k], 'tables': [t['key'] for t in ts],
+                      'loc': en.get('loc'), 'chain': en.get('chain'), 'fn': en.get('fn'), '_b': nxt, '_i': 0}
+                g.blocks[nxt] = Block(nxt, [ev], [s], None)
+                blk.succ[k] = nxt
+                nxt += 1
+                changed = True
+        if changed:
+            g._preds = None
+        return g
 
 
 def direct_callers(prog, f):
     out = {}
+    for t in dispatch_only(prog).get(f.q, ()):
+        # entered only through the table: the callers are the functions that call through it
+        for c in prog.all_funcs():
+            if c.q not in out and any(e['ev'] == 'call' and 'fnexpr' in e and t in dispatch_site_tables(prog, c, e)
+                                      and any(row.get(dispatch_field(e)) is f for row in t['elems']) for e in c.events()):
+                out[c.q] = c
     for (c, e) in prog.callers_of(f.name):
         u = prog.unit_of(c)
         t = prog.resolve(u, e['callee']) if u else prog.funcs.get(e['callee'])
@@ -197,8 +400,26 @@ def inlined(prog, r, **kw):
     cache = prog.__dict__.setdefault('_h15_inl', {})
     key = (r.q, tuple(sorted(kw.items())))
     if key not in cache:
-        cache[key] = Inliner(prog, **kw).inline(r)
+        cache[key] = DInliner(prog, **kw).inline(r)
     return cache[key]
+
+
+def widest_contexts(prog, f, depth=0):
+    """nearest entry points of f, where an entry point that is merely a library-internal function with external
+    linkage (not in the installed headers, address not taken, has callers) is replaced by the entry points of its
+    callers: the widest view the library offers of a site in f"""
+    out = {}
+    for r in nearest_roots(prog, f):
+        outer = []
+        if depth < 3 and not is_external_entry(prog, r):
+            outer = [o for o in nearest_roots(prog, r, strictly_above=True) if o.q != r.q]
+        if outer:
+            for o in outer:
+                for w in widest_contexts(prog, o, depth + 1):
+                    out[w.q] = w
+        else:
+            out[r.q] = r
+    return [out[q] for q in sorted(out)]
 
 
 def in_contexts(prog, owner, check, depth=0, **kw):
@@ -343,11 +564,113 @@ def is_errno(x):
     return False
 
 
-def evaluate(x, env):
+def loc_key(x, env=None):
+    """env key of a scalar storage location that can be named statically: a variable, a member / constant-index
+    path inside a variable (`state.support`, `level[1]`), or what a pointer is known to point to (`*p`, `p->f`
+    with `p = &state` recorded in env under '&p')"""
+    x = strip(x)
+    if not isinstance(x, dict):
+        return None
+    k = x.get('k')
+    if k == 'var':
+        return x['name'] if x.get('vk') != 'func' else None
+    if k == 'member':
+        if x['arrow']:
+            b = _pointee(x['base'], env)
+        else:
+            b = loc_key(x['base'], env)
+        return None if b is None else '%s.%s' % (b, x['field'])
+    if k == 'index':
+        i = strip(x['idx'])
+        if isinstance(i, dict) and i.get('k') == 'int':
+            b = loc_key(x['base'], env)
+            return None if b is None else '%s[%d]' % (b, i['v'])
+        return None
+    if k == 'deref':
+        return _pointee(x['e'], env)
+    return None
+
+
+def _pointee(p, env):
+    p = strip(p)
+    if not isinstance(p, dict):
+        return None
+    if p.get('k') == 'addr':
+        return loc_key(p['e'], env)
+    if p.get('k') == 'var' and env is not None:
+        r = env.get('&' + p['name'])
+        if isinstance(r, tuple) and r and r[0] == 'var':
+            return r[1]
+    return None
+
+
+def key_root(key):
+    return re.split(r'[.\[]', key.lstrip('&#'), maxsplit=1)[0]
+
+
+# known bits of a location used as a set of feature bits (`caps & CAP_X`, `caps &= ~CAP_X`): env['#' + key] =
+# (mask of bits known to be 0, mask of bits known to be 1)
+_M = 0xFFFFFFFF
+
+
+def _bits_of(x, env):
+    """(known-zero mask, known-one mask) of an expression"""
+    x = strip(x)
+    if isinstance(x, dict) and x.get('k') == 'bin' and x['op'] in ('&', '|'):
+        (a0, a1), (b0, b1) = _bits_of(x['l'], env), _bits_of(x['r'], env)
+        if x['op'] == '&':
+            return (a0 | b0) & _M, a1 & b1
+        return a0 & b0, (a1 | b1) & _M
+    if isinstance(x, dict) and x.get('k') == 'un' and x['op'] == '~':
+        a0, a1 = _bits_of(x['e'], env)
+        return a1, a0
+    v = evaluate(x, env)
+    if is_const(v):
+        return (~v[0]) & _M, v[0] & _M
+    key = loc_key(x, env)
+    if key is not None:
+        return env.get('#' + key, (0, 0))
+    return 0, 0
+
+
+def _bit_test(l):
+    """(location key, constant mask) when l is `location & constant`"""
+    l = strip(l)
+    if isinstance(l, dict) and l.get('k') == 'bin' and l['op'] == '&':
+        for a, b in ((l['l'], l['r']), (l['r'], l['l'])):
+            c = evaluate(b, {})
+            key = loc_key(a)
+            if is_const(c) and key is not None:
+                return (key, c[0] & _M)
+    return None
+
+
+def _bits_value(k0, k1):
+    """abstract value of a word with these known bits"""
+    if (k0 | k1) & _M == _M:
+        return const(k1)
+    if k1:
+        return (k1, None, False)
+    unknown = ~k0 & _M
+    if unknown and unknown < (1 << 16):
+        return (0, unknown, False)
+    return TOP
+
+
+def evaluate(x, env, hook=None):
+    """abstract value of an expression; hook(x, env) -> value | None is asked first for memory reads (the simulator
+    answers reads of constant tables)"""
     x = strip(x)
     if not isinstance(x, dict):
         return TOP
     k = x.get('k')
+    if k in ('member', 'index', 'deref') and not is_errno(x):
+        if hook is not None:
+            v = hook(x, env)
+            if v is not None:
+                return v
+        key = loc_key(x, env)
+        return env.get(key, TOP) if key is not None else TOP
     if k == 'int':
         return const(x['v'])
     if k == 'null':
@@ -368,10 +691,10 @@ def evaluate(x, env):
             key = _lvalue_key(x['l'])
             if key is not None and key in env:
                 return env[key]
-            return evaluate(x['r'], env)
+            return evaluate(x['r'], env, hook)
         return TOP
     if k == 'un':
-        v = evaluate(x['e'], env)
+        v = evaluate(x['e'], env, hook)
         if x['op'] == '-':
             lo, hi, nz = v
             return (None if hi is None else -hi, None if lo is None else -lo, nz)
@@ -380,34 +703,41 @@ def evaluate(x, env):
             return _b(None if t is None else not t)
         if x['op'] == '+':
             return v
+        if x['op'] == '~' and is_const(v):
+            return const(~v[0])
         return TOP
     if k == 'bin':
         op = x['op']
+        if op in ('&', '|'):
+            a, b = evaluate(x['l'], env, hook), evaluate(x['r'], env, hook)
+            if is_const(a) and is_const(b):
+                return const((a[0] & b[0]) if op == '&' else (a[0] | b[0]))
+            return _bits_value(*_bits_of(x, env))
         if op in ('==', '!=', '<', '>', '<=', '>='):
-            return _b(compare(evaluate(x['l'], env), op, evaluate(x['r'], env)))
+            return _b(compare(evaluate(x['l'], env, hook), op, evaluate(x['r'], env, hook)))
         if op == '&&':
-            a, b = truth(evaluate(x['l'], env)), truth(evaluate(x['r'], env))
+            a, b = truth(evaluate(x['l'], env, hook)), truth(evaluate(x['r'], env, hook))
             if a is False or b is False:
                 return const(0)
             return _b(True if (a and b) else None)
         if op == '||':
-            a, b = truth(evaluate(x['l'], env)), truth(evaluate(x['r'], env))
+            a, b = truth(evaluate(x['l'], env, hook)), truth(evaluate(x['r'], env, hook))
             if a or b:
                 return const(1)
             return _b(False if (a is False and b is False) else None)
         if op in ('+', '-'):
-            a, b = evaluate(x['l'], env), evaluate(x['r'], env)
+            a, b = evaluate(x['l'], env, hook), evaluate(x['r'], env, hook)
             if is_const(a) and is_const(b):
                 n = a[0] + b[0] if op == '+' else a[0] - b[0]
                 return const(n) if abs(n) <= _SAT else TOP
         return TOP
     if k == 'cond':
-        c = truth(evaluate(x['c'], env))
+        c = truth(evaluate(x['c'], env, hook))
         if c is True:
-            return evaluate(x['a'], env)
+            return evaluate(x['a'], env, hook)
         if c is False:
-            return evaluate(x['b'], env)
-        a, b = evaluate(x['a'], env), evaluate(x['b'], env)
+            return evaluate(x['b'], env, hook)
+        a, b = evaluate(x['a'], env, hook), evaluate(x['b'], env, hook)
         return a if a == b else TOP
     return TOP
 
@@ -417,12 +747,12 @@ def _lvalue_key(l):
     l = strip(l)
     if not isinstance(l, dict):
         return None
-    if l.get('k') == 'var' and l.get('vk') != 'func':
-        return l['name']
     if l.get('k') == 'call':
         return '$call:%s' % l.get('loc')
     if is_errno(l):
         return '$errno'
+    if l.get('k') in ('var', 'member', 'index', 'deref'):
+        return loc_key(l)
     if l.get('k') == 'assign' and l.get('op') == '=':
         return _lvalue_key(l['l'])
     return None
@@ -454,8 +784,9 @@ class Sim:
     After run(): exits = [(ret event | None, env, marks, return value)], fatals = [(block id, env, marks)].
     Marks only grow along a path, so "the path saw X" is `X in marks` at its end."""
 
-    def __init__(self, g, oracle=None, marker=None, init=None, max_states=30000, edge_marker=None):
+    def __init__(self, g, oracle=None, marker=None, init=None, max_states=30000, edge_marker=None, tabs=None):
         self.g = g
+        self.tabs = tabs or {}      # {name: dispatch table info} (see dispatch_tables)
         self.edge_marker = edge_marker
         self.oracle = oracle or (lambda e, env, marks: None)
         self.marker = marker
@@ -494,7 +825,199 @@ class Sim:
         la = self.live.get((b, i))
         if la is None:
             return env
-        return {k: v for k, v in env.items() if k in la or k in self.globals or k == '$errno' or k.startswith('$call:') or k.startswith('%')}
+        out = {}
+        for k, v in env.items():
+            if k[0] in '$%':
+                if k == '$errno' or k.startswith('$call:') or k[0] == '%' or k in la:
+                    out[k] = v
+                continue
+            r = key_root(k)
+            if r in la or r in self.globals:
+                out[k] = v
+        return out
+
+    def is_global(self, key):
+        return key_root(key) in self.globals
+
+    def ev(self, x, env):
+        return evaluate(x, env, self._table_read)
+
+    def _table_read(self, x, env):
+        """value of a read of integer data from a private constant table (`modes[i].flags`, `v->retry`, `levels[i]`)
+        for the rows the index value allows; None when x is not such a read"""
+        if not self.tabs:
+            return None
+        k = x.get('k')
+        el, fld = None, None
+        if k == 'member':
+            fld = x['field']
+            if x['arrow']:
+                r = self.ref(x['base'], env)
+                if r is not None and r[0] == 'elem':
+                    el = r[1:]
+            else:
+                el = self._elem(x['base'], env)
+        elif k in ('index', 'deref'):
+            el = self._elem(x, env)
+        if el is None:
+            return None
+        t = self.tabs[el[0]]
+        vals = []
+        for i, drow in enumerate(t['data']):
+            if meet(el[1], '==', i) is None:
+                continue
+            if fld in drow:
+                vals.append(drow[fld])
+            elif fld in t['elems'][i]:
+                vals.append((1, None, False))       # the address of a function
+            elif fld is not None and drow.get(None) == const(0) and not t['elems'][i]:
+                vals.append(const(0))       # implicitly zero-initialised element
+            else:
+                return None
+        if not vals:
+            return None
+        lo = None if any(v[0] is None for v in vals) else min(v[0] for v in vals)
+        hi = None if any(v[1] is None for v in vals) else max(v[1] for v in vals)
+        return (lo, hi, False)
+
+    # -- pointers to static locations / elements of constant dispatch tables -----
+    def _elem(self, l, env):
+        """(table name, index value, location key of the index | None) when the lvalue l denotes an element of a
+        constant table"""
+        l = strip(l)
+        if not isinstance(l, dict):
+            return None
+        k = l.get('k')
+        if k == 'var' and l['name'] in self.tabs:
+            return (l['name'], const(0), None)
+        if k == 'index':
+            b = strip(l['base'])
+            if isinstance(b, dict) and b.get('k') == 'var' and b['name'] in self.tabs:
+                # (the location the index was read from is remembered while it is not written: taking one
+                # alternative of a dispatch tells what the index was)
+                return (b['name'], self.ev(l['idx'], env), loc_key(l['idx'], env))
+            return None
+        if k == 'deref':
+            r = self.ref(l['e'], env)
+            if r is not None and r[0] == 'elem':
+                return r[1:]
+        return None
+
+    def _rows(self, el):
+        t = self.tabs[el[0]]
+        return [row for i, row in enumerate(t['elems']) if meet(el[1], '==', i) is not None]
+
+    def ref(self, x, env):
+        """what a pointer-valued expression is known to denote: ('var', location key) | ('elem', table, index value)
+        | ('fns', frozenset of function names) | None"""
+        x = strip(x)
+        if not isinstance(x, dict):
+            return None
+        k = x.get('k')
+        if k == 'var':
+            if x.get('vk') == 'func':
+                return ('fns', frozenset([x['name']]))
+            return env.get('&' + x['name'])
+        if k == 'addr':
+            inner = strip(x['e'])
+            if isinstance(inner, dict) and inner.get('k') == 'var' and inner.get('vk') == 'func':
+                return ('fns', frozenset([inner['name']]))
+            el = self._elem(inner, env)
+            if el is not None:
+                return ('elem',) + el
+            key = loc_key(inner, env)
+            return ('var', key) if key is not None else None
+        if k == 'member':
+            el = None
+            if x['arrow']:
+                r = self.ref(x['base'], env)
+                if r is not None and r[0] == 'elem':
+                    el = r[1:]
+            else:
+                el = self._elem(x['base'], env)
+            if el is None:
+                return None
+            rows = self._rows(el)
+            if rows and all(x['field'] in row for row in rows):
+                return ('fns', frozenset(row[x['field']].name for row in rows))
+            return None
+        if k == 'index':
+            el = self._elem(x, env)
+            if el is None:
+                return None
+            rows = self._rows(el)
+            if rows and all(None in row for row in rows):
+                return ('fns', frozenset(row[None].name for row in rows))
+            return None
+        if k == 'deref':
+            return self.ref(x['e'], env)
+        if k == 'cond':
+            c = truth(self.ev(x['c'], env))
+            if c is True:
+                return self.ref(x['a'], env)
+            if c is False:
+                return self.ref(x['b'], env)
+            a, b = self.ref(x['a'], env), self.ref(x['b'], env)
+            if a is not None and b is not None and a[0] == b[0] == 'fns':
+                return ('fns', a[1] | b[1])
+            return a if a == b else None
+        return None
+
+    @staticmethod
+    def _forget(env, key):
+        """drop what is known about the location `key`, the locations inside it and the pointer stored in it"""
+        for k in [k for k in env if k.lstrip('&#') == key or k.lstrip('&#').startswith(key + '.') or k.lstrip('&#').startswith(key + '[')]:
+            env.pop(k)
+        Sim._unindex(env, key)
+
+    @staticmethod
+    def _unindex(env, key):
+        """`key` is written: pointers to table elements no longer know it as the location of their index"""
+        for k, v in list(env.items()):
+            if k[0] == '&' and isinstance(v, tuple) and v[0] == 'elem' and v[3] is not None \
+                    and (v[3] == key or v[3].startswith(key + '.') or v[3].startswith(key + '[')):
+                env[k] = v[:3] + (None,)
+
+    def _take_alternative(self, e, env):
+        """`assume` event: this alternative of a call through a constant dispatch table is the one that runs.
+        None when the index value known here selects another element; else env, refined by what taking this
+        alternative says about the index"""
+        fe = strip(e['fnexpr'])
+        target = e['target'].split(':')[-1]
+        el, fld, ptr = None, None, None
+        if isinstance(fe, dict) and fe.get('k') == 'member':
+            fld = fe['field']
+            if fe['arrow']:
+                b = strip(fe['base'])
+                r = self.ref(b, env)
+                if r is not None and r[0] == 'elem':
+                    el = r[1:]
+                    if isinstance(b, dict) and b.get('k') == 'var':
+                        ptr = b['name']
+            else:
+                el = self._elem(fe['base'], env)
+        elif isinstance(fe, dict) and fe.get('k') in ('index', 'deref'):
+            el = self._elem(fe, env)
+        if el is None:
+            r = self.ref(e['fnexpr'], env)
+            if r is not None and r[0] == 'fns' and target not in r[1]:
+                return None
+            return env
+        t = self.tabs[el[0]]
+        idx = [i for i, row in enumerate(t['elems']) if meet(el[1], '==', i) is not None and fld in row and row[fld].name == target]
+        if not idx:
+            return None
+        iv = meet(meet(el[1], '>=', min(idx)) or el[1], '<=', max(idx)) or el[1]
+        if iv != el[1]:
+            env = dict(env)
+            if el[2] is not None:
+                cur = env.get(el[2], TOP)
+                m = meet(meet(cur, '>=', min(idx)) or cur, '<=', max(idx))
+                if m is not None:
+                    env[el[2]] = m
+            if ptr is not None:
+                env['&' + ptr] = ('elem', el[0], iv, el[2])
+        return env
 
     # -- transfer ---------------------------------------------------------
     @staticmethod
@@ -517,34 +1040,71 @@ class Sim:
             add = self.marker(e, env, marks)
             if add:
                 env, marks = self._apply(add, env, marks)
+        if ev == 'assume':
+            # one alternative of a call through a constant dispatch table: dead if the index value selects another
+            env = self._take_alternative(e, env)
+            return None if env is None else (env, marks)
         if ev == 'store':
             l = strip(e['lhs'])
             key = None
-            if isinstance(l, dict) and l.get('k') == 'var':
-                key = l['name']
-            elif is_errno(l):
+            if is_errno(l):
                 key = '$errno'
+            elif isinstance(l, dict):
+                key = loc_key(l, env)
+            if key is None and isinstance(l, dict) and l.get('k') in ('deref', 'member', 'index'):
+                # a store through an unknown pointer / index: it may hit any location whose address was taken
+                # (`p = &flag`) or any element of the indexed array
+                env = dict(env)
+                hit = {v[1] for k_, v in env.items() if k_[0] == '&' and isinstance(v, tuple) and v[0] == 'var'}
+                if l.get('k') == 'index':
+                    b = loc_key(l['base'], env)
+                    if b is not None:
+                        hit.add(b)
+                for h in hit:
+                    for k_ in [k_ for k_ in env if k_ == h or k_.startswith(h + '.') or k_.startswith(h + '[')]:
+                        env.pop(k_)
+                    self._unindex(env, h)
             if key is not None:
                 op = e.get('op')
                 if op == '=' and 'rhs' in e:
-                    v = evaluate(e['rhs'], env)
+                    v = self.ev(e['rhs'], env)
                 elif op in ('++', '--') and is_const(env.get(key, TOP)):
                     n = env[key][0] + (1 if op == '++' else -1)
                     v = const(n) if abs(n) <= _SAT else TOP
-                elif op in ('+=', '-=') and 'rhs' in e and is_const(env.get(key, TOP)) and is_const(evaluate(e['rhs'], env)):
-                    n = env[key][0] + evaluate(e['rhs'], env)[0] * (1 if op == '+=' else -1)
+                elif op in ('+=', '-=') and 'rhs' in e and is_const(env.get(key, TOP)) and is_const(self.ev(e['rhs'], env)):
+                    n = env[key][0] + self.ev(e['rhs'], env)[0] * (1 if op == '+=' else -1)
                     v = const(n) if abs(n) <= _SAT else TOP
                 else:
                     v = TOP
                 env = dict(env)
+                r = self.ref(e['rhs'], env) if (op == '=' and 'rhs' in e and key != '$errno') else None
+                bits = None
+                rs = strip(e['rhs']) if 'rhs' in e else None
+                if key != '$errno' and rs is not None and (op in ('&=', '|=') or (op == '=' and isinstance(rs, dict) and rs.get('k') == 'bin'
+                                                                                 and rs['op'] in ('&', '|'))):
+                    r0, r1 = _bits_of(e['rhs'], env)
+                    if op == '=':
+                        bits = (r0, r1)
+                    else:
+                        o0, o1 = _bits_of(e['lhs'], env)
+                        bits = ((o0 | r0) & _M, o1 & r1) if op == '&=' else (o0 & r0, (o1 | r1) & _M)
+                    if bits == (0, 0):
+                        bits = None
+                    elif v == TOP:
+                        v = _bits_value(*bits)
+                if key != '$errno':
+                    self._forget(env, key)
+                if bits is not None:
+                    env['#' + key] = bits
                 if v == TOP:
                     env.pop(key, None)
                 else:
                     env[key] = v
+                if r is not None:
+                    env['&' + key] = r
         elif ev == 'decl':
-            if e['name'] in env:
-                env = dict(env)
-                env.pop(e['name'], None)
+            env = dict(env)
+            self._forget(env, e['name'])
         elif ev == 'call':
             if e.get('callee') == '__errno_location':
                 return env, marks
@@ -552,8 +1112,11 @@ class Sim:
             if 'fnexpr' in e:
                 # code outside this graph (user callback, method slot): file-scope state and errno may change
                 for k in list(env):
-                    if k in self.globals or k == '$errno':
+                    if k == '$errno' or (k[0] not in '$%' and self.is_global(k)):
                         env.pop(k)
+                for k, v in list(env.items()):
+                    if k[0] == '&' and isinstance(v, tuple) and v[0] == 'elem' and v[3] is not None and self.is_global(v[3]):
+                        env[k] = v[:3] + (None,)
                 out = self.oracle(e, env, marks)
             else:
                 out = self.oracle(e, env, marks)
@@ -573,9 +1136,14 @@ class Sim:
             for a in e.get('args', []):
                 a = strip(a)
                 if isinstance(a, dict) and a.get('k') == 'addr':
-                    v = strip(a['e'])
-                    if isinstance(v, dict) and v.get('k') == 'var':
-                        env.pop(v['name'], None)
+                    key = loc_key(a['e'], env)
+                    if key is not None:
+                        self._forget(env, key)
+                elif isinstance(a, dict) and a.get('k') == 'var':
+                    # a pointer to a tracked location is handed to code outside the graph
+                    r = env.get('&' + a['name'])
+                    if isinstance(r, tuple) and r[0] == 'var':
+                        self._forget(env, r[1])
         return env, marks
 
     def _edges(self, blk, env):
@@ -588,7 +1156,7 @@ class Sim:
             return [(s, env, si) for si, s in enumerate(succ) if s is not None]
         cond = term['cond']
         if term.get('cls') == 'SwitchStmt':
-            v = evaluate(cond, env)
+            v = self.ev(cond, env)
             key = _lvalue_key(cond)
             cases = term.get('cases', [])
             out = []
@@ -615,7 +1183,7 @@ class Sim:
             return out
         if len(succ) != 2:
             return [(s, env, si) for si, s in enumerate(succ) if s is not None]
-        t = truth(evaluate(cond, env))
+        t = truth(self.ev(cond, env))
         out = []
         for si in (0, 1):
             if succ[si] is None:
@@ -626,14 +1194,34 @@ class Sim:
             dead = False
             atoms = self._atoms.get((blk.id, si))
             if atoms is None:
-                atoms = self._atoms[(blk.id, si)] = [(op, lc, rc, _lvalue_key(l) if op != 'const' else None, r)
+                atoms = self._atoms[(blk.id, si)] = [(op, lc, rc, _lvalue_key(l) if op != 'const' else None, r, _bit_test(l) if op != 'const' else None)
                                                      for (op, lc, rc, l, r) in norm_cond(cond, si == 0)]
-            for (op, lc, rc, key, r) in atoms:
+            for (op, lc, rc, key, r, bit) in atoms:
                 if op == 'const':
                     if lc == 'False':
                         dead = True
                     continue
-                rv = evaluate(r, e2) if isinstance(r, dict) else TOP
+                rv = self.ev(r, e2) if isinstance(r, dict) else TOP
+                if key is None and bit is not None and is_const(rv):
+                    # `(flags & C) == 0` / `!= 0` / `== C`: what the branch says about the bits of `flags`
+                    bk, c = bit
+                    cur = e2.get(bk, TOP)
+                    o0, o1 = ((~cur[0]) & _M, cur[0] & _M) if is_const(cur) else e2.get('#' + bk, (0, 0))
+                    n0, n1 = o0, o1
+                    single = c != 0 and (c & (c - 1)) == 0
+                    if (op == '==' and rv[0] == 0) or (op == '!=' and rv[0] == c and single):
+                        n0 |= c
+                    elif (op in ('!=', '>') and rv[0] == 0 and single) or (op == '==' and rv[0] == c and c):
+                        n1 |= c
+                    elif op in ('!=', '>') and rv[0] == 0 and (c & ~o0 & _M) == 0:
+                        dead = True
+                        break
+                    if n0 & n1:
+                        dead = True
+                        break
+                    if (n0, n1) != (o0, o1) and not is_const(cur):
+                        e2['#' + bk] = (n0, n1)
+                    continue
                 if key is None:
                     # constant on the left is already swapped by norm_cond; negated operand `-x op n`
                     continue
@@ -672,10 +1260,14 @@ class Sim:
                         add = self.marker(e, env, marks)
                         if add:
                             m2 = marks | frozenset(add)
-                    self.exits.append((e, env, m2, evaluate(e['value'], env) if 'value' in e else None))
+                    self.exits.append((e, env, m2, self.ev(e['value'], env) if 'value' in e else None))
                     done = True
                     break
-                env, marks = self._event(e, env, marks)
+                res = self._event(e, env, marks)
+                if res is None:         # infeasible (see `assume`)
+                    done = True
+                    break
+                env, marks = res
                 env = self._prune(env, b, i)
             if done:
                 continue
@@ -700,4 +1292,4 @@ class Sim:
         return self
 
     def global_env(self, env):
-        return {k: v for k, v in env.items() if k in self.globals}
+        return {k: v for k, v in env.items() if k[0] not in '$%&' and self.is_global(k)}
